@@ -1399,6 +1399,16 @@ func randSeqs(u *Universe, r *rand.Rand, n int) [][]int {
 			continue
 		}
 		l := r.Intn(u.K + 1)
+		// every fourth input is long (library sorts switch algorithm above a dozen elements) and drawn from
+		// a handful of values, so that it is full of ties between equal but distinguishable items
+		if tries%4 == 3 {
+			l = 13 + r.Intn(28)
+			few := make([]int, 2+r.Intn(4))
+			for i := range few {
+				few[i] = pool[r.Intn(len(pool))]
+			}
+			pool = few
+		}
 		xs := make([]int, l)
 		for i := range xs {
 			xs[i] = pool[r.Intn(len(pool))]
